@@ -60,4 +60,8 @@ THEOREMS = [
     ("DastardV.Props.C03", "DastardV.C03.C03_unequal_fpp_panics"),
     ("DastardV.Lemmas.ComposeAbaco", "DastardV.Compose.chanSegs_catChan"),
     ("DastardV.Lemmas.ComposeAbaco", "DastardV.Compose.abaco_no_pulse_lost_packets"),
+    ("DastardV.Lemmas.ComposeAbacoExcerpt", "DastardV.Compose.chanStream_blocks"),
+    ("DastardV.Lemmas.ComposeAbacoExcerpt", "DastardV.Compose.abaco_file_samples_are_packet_samples"),
+    ("DastardV.Lemmas.ComposeAbacoExcerpt", "DastardV.Compose.streamOK_packet"),
+    ("DastardV.Lemmas.ComposeAbacoExcerpt", "DastardV.Compose.excerpt_sample_of_packet"),
 ]
